@@ -417,8 +417,11 @@ class Pass1(CompilePass):
         # "name AS type" is part of DIM, TYPE, DECLARE, SUB and
         # FUNCTION; on its own it is the field declaration of a TYPE
         # block written outside one
-        if not isinstance(node.parent, (DimStmt, TypeBlock, DeclareStmt,
-                                        SubBlock, FunctionBlock)):
+        parent = node.parent
+        is_param = isinstance(parent, (SubBlock, FunctionBlock)) and \
+            any(node is p for p in parent.params)
+        if not is_param and not isinstance(
+                parent, (DimStmt, TypeBlock, DeclareStmt)):
             raise CompileError(
                 EC.ILLEGAL_IN_TYPE_BLOCK,
                 'Field declaration outside TYPE block',
